@@ -195,7 +195,7 @@ def run(chk, replay=None):
         if STEPS and profile == "release" and not replay:
             # per-iteration hooks of gcd_internal: every 8th shape of each (instantiation, relation) class in quick,
             # every shape in thorough (full lattice invariant at every step for all / one in four of them)
-            args += ["--steps-every", 1 if thorough else 8, "--lat-every", 4 if thorough else 1, "--steps-out", steps]
+            args += ["--steps-every", 2 if thorough else 8, "--lat-every", 4 if thorough else 1, "--steps-out", steps]
         core.run_driver(args, tr, timeout=1700, profile=profile)
         if replay:
             core.replay_filter(tr, replay)
